@@ -2,7 +2,7 @@
    PARTIAL: the theorems are about the model (reference semantics L1 and chunk-stream operators L2 of Model.v);
    the repository's operators are tied to it by the black-box correspondence only (props/C08/NOTES.md). *)
 From Coq Require Import ZArith List Bool Permutation Sorted.
-From OG Require Import C08.Model C08.Proofs C08.Pipe C08.DescMerge C08.PipeProofs.
+From OG Require Import C08.Model C08.Proofs C08.Pipe C08.DescMerge C08.PipeProofs C08.Rpn.
 Import ListNotations.
 
 (* Every operator that is a state machine over rows gives the same output and final state for every cut of its
@@ -262,3 +262,11 @@ Example C08_pipeline_desc_example :
   eval_query db q = [([], [(20, [CVal 0; CVal 0]); (15, [CVal 0; CVal 0]); (10, [CVal 5; CVal 5]);
                            (5, [CVal 40; CVal 32]); (0, [CVal 104; CVal 72])]%Z)].
 Proof. cbv zeta. split; vm_compute; reflexivity. Qed.
+
+(* conditions in reverse Polish notation (column-store row filter): evaluating the RPN of a condition tree with ONE operand
+   stack - an operator takes its two most recent operands, whatever they are - gives the value of the tree, for every tree
+   and every row. (Today's two-stack dispatch is refuted in Refuted.v: C08_rpn_two_stack_refuted.) *)
+Theorem C08_rpn_single_stack_eq_tree : forall {Atom} (holds : Atom -> bool) (t : ctree),
+  run1 holds (rpn t) (Some []) = Some [teval holds t].
+Proof. exact @rpn_single_stack_eq_tree. Qed.
+Print Assumptions C08_rpn_single_stack_eq_tree.
